@@ -8,9 +8,9 @@
      ODef h o                  the Deferred returned by the h-th Deferred-returning makeRequest call fires with o
      t_dlog                    correlation id passed to makeRequest, per handle (dlog_is_make_log)
      CInv                      the invariant every reachable state satisfies (C06_reachable) *)
-From AV Require Import Base.Util Model.Framing Model.BrokerClient Model.BrokerClientHook Model.BrokerClientTail
+From AV Require Import Base.Util Model.Framing Model.BrokerClient Model.BrokerClientHook Model.BrokerClientTail Model.BrokerClientWrite
   Proofs.FramingFacts Proofs.FramingExtra Proofs.FramingBootstrap Proofs.BrokerClientTbl Proofs.BrokerClientInv
-  Proofs.BrokerClientC06 Proofs.BrokerClientChunk Proofs.BrokerClientHook Proofs.BrokerClientGaps Proofs.BrokerClientTail.
+  Proofs.BrokerClientC06 Proofs.BrokerClientChunk Proofs.BrokerClientHook Proofs.BrokerClientGaps Proofs.BrokerClientTail Proofs.BrokerClientWrite.
 
 (* ------------------------------------------------------------------ framing *)
 
@@ -120,6 +120,30 @@ Theorem C06_nothing_after_fired_reentrant : forall evs s outs a h oc b,
   forall o, In o b -> (forall oc', o <> ODef h oc') /\ (forall rid, o <> OWrite h rid).
 Proof. exact after_fired_i. Qed.
 Print Assumptions C06_nothing_after_fired_reentrant.
+
+(* ... and when the write of a request RAISES inside _sendRequest (Model/BrokerClientWrite.v: sendString raising is an
+   oracle fixed per request, e.g. a str payload; WFail h = the Deferred of h errbacks with that exception): still no
+   Deferred fires twice - neither by a response, None, a cancel, close nor a failing write - and a Deferred has fired
+   iff its request left the table.  (erase maps WFail h to a failure of h; Model/BrokerClient.v's outcome type is
+   untouched because other models build on it.) *)
+Theorem C06_exactly_once_write_failure : forall evs ws outs, wrun winit evs = (ws, outs) ->
+  NoDup (wdef_handles outs)
+  /\ (forall k h, ~ In (WO (OErr k h)) outs) /\ ~ In (WO (ORaised 5)) outs
+  /\ (forall h, In h (wdef_handles outs) <->
+                (h < length (t_dlog (s_t (w_s ws))))%nat
+                /\ ~ (exists r, In r (t_reqs (s_t (w_s ws))) /\ r_h r = h /\ r_cancelled r = false)).
+Proof. exact exactly_once_w. Qed.
+Print Assumptions C06_exactly_once_write_failure.
+
+(* the failing write is local: that request's Deferred fails, its entry leaves the table, nothing is written, every other
+   entry stays exactly as it was *)
+Theorem C06_write_failure_local : forall bad t r, TInv t -> In r (t_reqs t) -> r_sent r = false ->
+  is_bad bad (r_h r) = true ->
+  exists t', send_request_w bad t r = (t', [WFail (r_h r)])
+    /\ t_reqs t' = del (r_id r) (t_reqs t) /\ t_fired t' = r_h r :: t_fired t /\ t_dlog t' = t_dlog t
+    /\ (forall x, In x (t_reqs t) -> r_id x <> r_id r -> In x (t_reqs t')).
+Proof. exact write_failure_local. Qed.
+Print Assumptions C06_write_failure_local.
 
 (* Own response: a success value is a frame whose first four bytes decode to the correlation id that was passed to
    the makeRequest call which created that Deferred. *)
@@ -390,6 +414,15 @@ Example tail_reentrancy_nonvacuous :
   = [ODef 0 (Succ [0;0;0;1]); ODef 1 FailCancelled; OLose]
   /\ tail_events inter s [[0;0;0;1]; [0;0;0;2]] = [EFrame [0;0;0;1]; ECancel 1; EClose; EFrame [0;0;0;2]].
 Proof. vm_compute. split; reflexivity. Qed.
+
+(* requests 1 (sendable), 2 (unsendable, queued), 3 (sendable) flushed on a new connection: 2 fails in the middle, 1 and 3
+   are written; after a loss and a reconnect only 1 and 3 are re-sent; an unsendable request on the live connection
+   fails at once *)
+Example write_failure_nonvacuous :
+  map enc_wout (snd (wrun winit [WMake 1 true false; WMake 2 true true; WMake 3 true false; WEv EConnOk; WEv ELost; WEv EConnOk;
+                                 WMake 4 false true]))
+  = map enc_wout [WO (OConnect 0); WO (OWrite 0 1); WFail 1; WO (OWrite 2 3); WO (OConnect 0); WO (OWrite 0 1); WO (OWrite 2 3); WFail 3].
+Proof. vm_compute. reflexivity. Qed.
 
 Example bootstrap_nonvacuous :
   snd (brun b_init [BReq [0;3;0;0;0;0;0;1;255;255]; BData [0;0;0;5;0;0]; BData [0;1;66];
